@@ -33,20 +33,38 @@ type GInfo struct {
 // not the harness (for example the watcher goroutine context.WithCancel
 // starts for a parent context that is not one of the standard library's).
 func CreatedFor(gs []GInfo, caller int64) int {
+	n, _ := CreatedForInfo(gs, caller, nil)
+	return n
+}
+
+// AllIDs returns the ids of all goroutines that exist now.
+func AllIDs() map[int64]bool {
+	m := map[int64]bool{}
+	for _, g := range DumpGoroutines() {
+		m[g.ID] = true
+	}
+	return m
+}
+
+// CreatedForInfo is CreatedFor plus a description of the counted goroutines
+// (creator, state and top frame of each).
+// Goroutines listed in base existed before the directive was called (left
+// behind by an earlier, abandoned execution) and are never counted.
+func CreatedForInfo(gs []GInfo, caller int64, base map[int64]bool) (int, string) {
 	counted := map[int64]bool{}
 	harness := func(c string) bool {
 		return strings.HasPrefix(c, "vinner") || strings.HasPrefix(c, "vcase/rt") ||
 			strings.HasPrefix(c, "testing.") || strings.HasPrefix(c, "pgregory.net/")
 	}
 	for _, g := range gs {
-		if strings.HasPrefix(g.Creator, "go.uber.org/cff") || strings.HasPrefix(g.Creator, "vcase/p") {
+		if !base[g.ID] && (strings.HasPrefix(g.Creator, "go.uber.org/cff") || strings.HasPrefix(g.Creator, "vcase/p")) {
 			counted[g.ID] = true
 		}
 	}
 	for changed := true; changed; {
 		changed = false
 		for _, g := range gs {
-			if counted[g.ID] || g.Parent == 0 || harness(g.Creator) {
+			if counted[g.ID] || g.Parent == 0 || base[g.ID] || harness(g.Creator) {
 				continue
 			}
 			if counted[g.Parent] || (caller != 0 && g.Parent == caller) {
@@ -55,7 +73,18 @@ func CreatedFor(gs []GInfo, caller int64) int {
 			}
 		}
 	}
-	return len(counted)
+	var sb strings.Builder
+	for _, g := range gs {
+		if !counted[g.ID] {
+			continue
+		}
+		top := ""
+		if ls := strings.SplitN(g.Text, "\n", 3); len(ls) >= 2 {
+			top = ls[1]
+		}
+		sb.WriteString("  g" + strconv.FormatInt(g.ID, 10) + " [" + g.State + "] " + top + " <- " + g.Creator + " in g" + strconv.FormatInt(g.Parent, 10) + "\n")
+	}
+	return len(counted), sb.String()
 }
 
 // DumpGoroutines parses runtime.Stack(all).
@@ -156,6 +185,28 @@ func AwaitNoSched(base map[int64]bool, deadline time.Duration) (leak string, ok 
 			sleep *= 2
 		}
 	}
+}
+
+// WhyNotStuck names the first goroutine that keeps stableBlocked from
+// declaring the process stuck (diagnostics of inconclusive runs).
+func WhyNotStuck() string {
+	for i, g := range DumpGoroutines() {
+		if i == 0 {
+			continue
+		}
+		st := strings.SplitN(g.State, ",", 2)[0]
+		if st == "running" || st == "runnable" || st == "syscall" || st == "sleep" {
+			ls := strings.SplitN(g.Text, "\n", 4)
+			if len(ls) > 3 {
+				ls = ls[:3]
+			}
+			return strings.Join(ls, " | ")
+		}
+		if g.Sched && !blockedState(g.State) {
+			return "scheduler goroutine not blocked: " + strings.SplitN(g.Text, "\n", 2)[0]
+		}
+	}
+	return "no scheduler goroutine, or the state changed between two censuses"
 }
 
 func stableBlocked(base map[int64]bool) (string, bool) {
